@@ -22,14 +22,14 @@ example : safeBeforeTerm Gen.table Gen.symbolsC [45] = true ∧ Gen.symbolsC.con
 the printer writes without a line limit back as exactly the printer's token list, for every
 skeleton whose identifiers are `NameOK` (identifier or numeral shape, no literal terminal). -/
 theorem lex_print_abstract (T : Table) (L : Ladder) (S : List (List Nat)) (hT : TextOK T L S) (uni : Bool) (t : Skel)
-    (hw : t.WF T L) (hn : t.NamesOK S) : lex S (printText T L uni t) = some (printSkel T L uni t) :=
+    (hw : t.WF T L) (hn : t.NamesOK S) : lex S (printText T L S uni t) = some (printSkel T L uni t) :=
   lex_print_core hT uni t hw hn
 
 example : ∃ T L S, TextOK T L S ∧ S.length > 50 := ⟨Gen.table, Gen.ladder, Gen.symbolsC, text_ok, by decide⟩
 
 /-- The same for the terminals and spellings of the current sources. -/
 theorem lex_print (uni : Bool) (t : Skel) (hw : t.WF Gen.table Gen.ladder) (hn : t.NamesOK Gen.symbolsC) :
-    lex Gen.symbolsC (printText Gen.table Gen.ladder uni t) = some (printSkel Gen.table Gen.ladder uni t) :=
+    lex Gen.symbolsC (printText Gen.table Gen.ladder Gen.symbolsC uni t) = some (printSkel Gen.table Gen.ladder uni t) :=
   lex_print_core text_ok uni t hw hn
 
 /-- `!x. --x ^ y <--> UN S Mem f T`: binder dot, double unary minus next to `-->`-like terminals,
@@ -44,19 +44,45 @@ example : exampleText.WF Gen.table Gen.ladder ∧ exampleText.NamesOK Gen.symbol
   simp only [exampleText, Skel.NamesOK]
   decide +kernel
 
-example : printText Gen.table Gen.ladder false exampleText
+example : printText Gen.table Gen.ladder Gen.symbolsC false exampleText
     = [33, 120, 46, 32, 45, 45, 120, 32, 94, 32, 121, 32, 60, 45, 45, 62, 32, 85, 78, 32, 83, 32, 77, 101, 109, 32, 102, 32, 84] := by
   decide +kernel
 
 /-- Composition with `parse_print`: lexing and parsing the printed text gives back the skeleton
 (`parseText` = model lexer, then the ladder parser). -/
 theorem parse_print_text (uni : Bool) (t : Skel) (hw : t.WF Gen.table Gen.ladder) (hn : t.NamesOK Gen.symbolsC) :
-    parseText Gen.table Gen.ladder Gen.symbolsC (printText Gen.table Gen.ladder uni t) = some t := by
+    parseText Gen.table Gen.ladder Gen.symbolsC (printText Gen.table Gen.ladder Gen.symbolsC uni t) = some t := by
   unfold parseText
   rw [lex_print uni t hw hn]
   exact parse_print uni t hw
 
-example : parseText Gen.table Gen.ladder Gen.symbolsC (printText Gen.table Gen.ladder true exampleText) = some exampleText := by
+example : parseText Gen.table Gen.ladder Gen.symbolsC (printText Gen.table Gen.ladder Gen.symbolsC true exampleText) = some exampleText := by
+  decide +kernel
+
+end Holpy.C07
+
+namespace Holpy.C07
+
+/-- Terms WITH type annotations: `(t::T)` around any subterm and `%x::T. t` on any binder.  Whatever
+subterms are annotated (the printer's `infer_printed_type` decides; the model takes any choice),
+lexing and parsing the printed text gives back the annotated skeleton — instances of
+`parse_print_text` for the constructors `Skel.ann` / `Skel.binderT`. -/
+theorem parse_print_annotated (uni : Bool) (t : Skel) (ty : Ty) (b : Nat) (x : List Nat)
+    (hw : t.WF Gen.table Gen.ladder) (hn : t.NamesOK Gen.symbolsC) (hty : ty.NamesOK Gen.symbolsC)
+    (hb : b < Gen.ladder.binders.length) (hx : NameOK Gen.symbolsC x = true ∧ idShaped x = true) :
+    parseText Gen.table Gen.ladder Gen.symbolsC (printText Gen.table Gen.ladder Gen.symbolsC uni (.ann t ty)) = some (.ann t ty) ∧
+    parseText Gen.table Gen.ladder Gen.symbolsC (printText Gen.table Gen.ladder Gen.symbolsC uni (.binderT b x ty t))
+      = some (.binderT b x ty t) :=
+  ⟨parse_print_text uni (.ann t ty) hw ⟨hn, hty⟩, parse_print_text uni (.binderT b x ty t) ⟨hb, hw⟩ ⟨hx, hty, hn⟩⟩
+
+/-- `%x::'a. (0::nat) + f (x::'a)` -/
+def exampleAnn : Skel :=
+  .binderT 0 [120] (.tvar [97])
+    (.bin 6 (.ann (.atom [48]) (.con [110, 97, 116] .nil)) (.app (.atom [102]) (.ann (.atom [120]) (.tvar [97]))))
+
+example : printText Gen.table Gen.ladder Gen.symbolsC false exampleAnn
+      = [37, 120, 58, 58, 39, 97, 46, 32, 40, 48, 58, 58, 110, 97, 116, 41, 32, 43, 32, 102, 32, 40, 120, 58, 58, 39, 97, 41] ∧
+    parseText Gen.table Gen.ladder Gen.symbolsC (printText Gen.table Gen.ladder Gen.symbolsC false exampleAnn) = some exampleAnn := by
   decide +kernel
 
 end Holpy.C07
